@@ -545,3 +545,21 @@ Proof.
   - cbn. unfold wf_prefix. repeat split; cbn; try lia; try reflexivity.
   - cbn. repeat split; try lia; try (intros _; vm_compute; reflexivity).
 Qed.
+
+(* held MUP routes (what the decoder produces) *)
+Theorem C17_mup_decoded_is_wf :
+  forall v6 rt data n, bytes_ok data -> mup_decode_body v6 rt data = Some n -> wf_mup n.
+Proof. exact mup_decode_body_wf. Qed.
+
+Theorem C17_mup_held_roundtrip :
+  forall v6p v6r v6 rt data n, v6_contract v6p v6r -> v6_nonempty v6p -> bytes_ok data ->
+    mup_decode_body v6 rt data = Some n -> mup_from_api v6r (mup_to_api v6p n) = Some n.
+Proof. exact mup_held_roundtrip. Qed.
+
+(* the boundary case of the held direction: 12 TEID bits carried in the octets 12 3f *)
+Example mup_held_example :
+  mup_decode_body false 4 [0; 0; 253; 232; 0; 0; 0; 1; 44; 10; 0; 0; 1; 18; 63]
+    = Some (MupT2 (RD2 65000 1) 44 (IP4 167772161) 306118656)
+  /\ mup_from_api v6_parse (mup_to_api v6_print (MupT2 (RD2 65000 1) 44 (IP4 167772161) 306118656))
+     = Some (MupT2 (RD2 65000 1) 44 (IP4 167772161) 306118656).
+Proof. split; vm_compute; reflexivity. Qed.
